@@ -31,6 +31,7 @@ def run(db, rep, feat, tier):
     r1(db, rep, trans)
     r2(db, rep)
     r3_r4(db, rep)
+    r6(db, rep)
     # the solver this analysis runs on
     import props.c09 as c09
     sub = rep.rule("R5", "K6", "solver discipline inherited from C09 (ordering outcomes, work-list pairing, complete "
@@ -138,6 +139,61 @@ def r2(db, rep):
                     sets_top = True
     r.decide(not bad and sets_top, "Constants::top", db.where(tb),
              "top() must assign Top to every present entry; it calls %s / assigns Top: %s" % (bad, sets_top))
+
+
+def r6(db, rep):
+    from db import pat_leaves, pat_path, strip
+    r = rep.rule("R6", "K5", "the state order is the pointwise order of the smaller map inside the bigger one: the Less and the Greater "
+                 "branch of Constants::partial_cmp are mirror images under self <-> other - each iterates the map with fewer "
+                 "entries, looks every key up in the other one and requires entry(smaller) <= entry(bigger)")
+    fn = "<analysis::constants::Constants as std::cmp::PartialOrd>::partial_cmp"
+    hb = db.hir.get(fn)
+    rep.anchor(hb is not None, fn)
+    ms = [n for n in walk(hb["body"]) if n.get("k") == "Match" and n.get("src") == "Normal"]
+    rep.anchor(bool(ms), "match on the length comparison")
+    params = [p.get("name") for p in hb["params"]]
+
+    def owner(e):
+        # `X.constants...` -> X
+        for x in walk(e):
+            if x.get("k") == "Field" and x.get("name") == "constants":
+                b = strip(x["e"])
+                while b.get("k") in ("Unary", "AddrOf"):
+                    b = strip(b["e"])
+                if b.get("k") == "Path" and "local" in b.get("res", {}):
+                    return b["res"]["local"]
+        return None
+
+    got = {}
+    for a in ms[0]["arms"]:
+        names = {last_seg(pat_path(p) or "") for p in pat_leaves(a["pat"])}
+        if names not in ({"Less"}, {"Greater"}):
+            continue
+        br = next(iter(names))
+        loops = [x for x in walk(a["body"]) if x.get("k") == "Match" and x.get("src") == "For"]
+        it_owner = owner(loops[0]["scrut"]) if loops else None
+        gets = [x for x in walk(a["body"]) if x.get("k") == "MethodCall" and x.get("name") == "get"]
+        get_owner = owner(gets[0]["recv"]) if gets else None
+        cmps = [x for x in walk(a["body"]) if x.get("k") == "Closure"]
+        op = None
+        for c in cmps:
+            for x in walk(c["body"]):
+                if x.get("k") == "Binary" and x["op"] in ("Le", "Ge", "Lt", "Gt"):
+                    l_, r_ = strip(x["a"]), strip(x["b"])
+                    cparams = {p.get("name") for p in c.get("params", []) if p.get("k") == "Bind"}
+                    lhs_is_closure_param = l_.get("k") == "Path" and l_.get("res", {}).get("local") in cparams
+                    o = x["op"]
+                    if lhs_is_closure_param:       # normalise to  iterated-entry  OP  looked-up-entry
+                        o = {"Le": "Ge", "Ge": "Le", "Lt": "Gt", "Gt": "Lt"}[o]
+                    op = o
+        rets = {last_seg(x.get("res", {}).get("def", "") or "") for x in walk(a["body"]) if x.get("k") == "Path"} & {"Less", "Greater", "Equal"}
+        got[br] = (it_owner, get_owner, op, rets)
+    want = {"Less": ("self", "other", "Le", {"Less"}), "Greater": ("other", "self", "Le", {"Greater"})}
+    for br in ("Less", "Greater"):
+        g = got.get(br)
+        r.decide(g == want[br], "partial_cmp|%s" % br, db.where(hb),
+                 "the %s branch iterates %s, looks up in %s, requires entry(iterated) %s entry(looked up) and answers %s; "
+                 "expected %s" % ((br,) + tuple(g or (None, None, None, None)) + (want[br],)))
 
 
 def r3_r4(db, rep):
